@@ -99,6 +99,18 @@ func runCase(q ref.Pt, digest []byte, r, s *big.Int, vs []int, dHex string) stri
 				sigs = append(sigs, encs[1][0])
 			}
 		}
+		// strictness of the SELECTED format: the same (r,s) in the other formats, and the own format with a byte
+		// appended (0x00, a recovery id - which turns compact into the recoverable form) or dropped
+		sigs = append([][]byte{}, sigs...)
+		for e2 := 0; e2 <= 2; e2++ {
+			if e2 != enc && len(encs[e2]) > 0 {
+				sigs = append(sigs, encs[e2][0])
+			}
+		}
+		if len(encs[enc]) > 0 {
+			own := encs[enc][0]
+			sigs = append(sigs, append(append([]byte{}, own...), 0x00), append(append([]byte{}, own...), 0x01), own[:len(own)-1])
+		}
 		for _, sig := range sigs {
 			w := lib.RefVerifyEncoded(q, digest, sig, o)
 			var got bool
